@@ -200,5 +200,5 @@ mod no_std_tests {
 }
 
 #[cfg(kani)]
-#[path = "/verif/kani/utils_proofs.rs"]
-pub(crate) mod verif_proofs; // verification hook (H2): specs and contract harnesses live in /verif
+#[allow(dead_code, unused_imports, unused_variables, unused_macros, static_mut_refs)]
+pub(crate) mod verif_proofs { include!(concat!(env!("VERIF_KANI_DIR"), "/utils_proofs.rs")); } // verification hook (H2): specs and contract harnesses live in /verif
